@@ -179,7 +179,7 @@ func checkRace(rl *raceLog, rc *RunCtx) {
 func execOne(e *Engine, rl *raceLog, rc *RunCtx) {
 	// every run executes under a watchdog: code under test that spins or blocks without executing VM
 	// instructions cannot be ended by the step cap; such a run is reported and the process is not reused
-	limit := 60 * time.Second
+	limit := 180 * time.Second
 	if e.RunTimeout > 0 {
 		limit = e.RunTimeout
 	}
@@ -749,6 +749,12 @@ func RunCheck(o Options) int {
 			if code2 == 1 && strings.Contains(string(ob2), " class="+pv.Viol.Class+"\n") {
 				final = pv
 				fmt.Printf("note: %s reproduces only together with the earlier runs of worker %d/%d\n", outPath, pv.Shard, pv.Of)
+			} else if final.Viol.Key == "hang:run-does-not-finish" {
+				// a run that outlived the watchdog once but finishes in a fresh process, alone and after its worker's
+				// earlier runs: the machine was overloaded, not the code under test stuck
+				fmt.Printf("note: run %d exceeded the run watchdog once and finishes normally when re-executed; not reported\n", final.Index)
+				os.Remove(outPath)
+				continue
 			} else {
 				fmt.Fprintf(os.Stderr, "INFRASTRUCTURE: replay of %s did not reproduce (exit %d), neither alone nor after the worker's earlier runs\n%s\n", outPath, code, truncate(string(ob), 2000))
 				return 2
